@@ -11,3 +11,22 @@ fn p_pager_open_alloc() {
     assert!(ok);
 }
 fn never_exists(_p: &std::path::Path) -> bool { false }
+
+#[kani::proof]
+#[kani::unwind(70)]
+fn c18_o3_bitmap_kernels() {
+    let mut bm = Bitmap::new();
+    let w: [u8; 8] = kani::any();
+    bm.data[0] = w[0] | 3; bm.data[1] = w[1]; bm.data[2] = w[2]; bm.data[3] = w[3];
+    let n: u64 = kani::any(); kani::assume(n >= 2 && n <= 32);
+    let r = bm.find_free_in_range(2, n);
+    match r {
+        Some(i) => { assert!(i >= 2 && i < n && !bm.get_bit(i)); }
+        None => { let j: u64 = kani::any(); kani::assume(j >= 2 && j < n); assert!(bm.get_bit(j)); }
+    }
+    let i: u64 = kani::any(); kani::assume(i < 65536);
+    let j: u64 = kani::any(); kani::assume(j < 65536 && j != i);
+    let before = bm.get_bit(j);
+    bm.set_bit(i, true);
+    assert!(bm.get_bit(i) && bm.get_bit(j) == before);
+}
